@@ -464,7 +464,10 @@ func (e *ibcEnv) runTx(msgs ...sdk.Msg) (anteErr, msgErr error) {
 				msgErr = fmt.Errorf("no handler for %T", m)
 				return
 			}
-			if _, err := h(mctx, m); err != nil {
+			g0 := mctx.GasMeter().GasConsumed()
+			_, err := h(mctx, m)
+			noteGas(mctx.GasMeter().GasConsumed() - g0) // C12: gas of the message, failed or not
+			if err != nil {
 				msgErr = err
 				return
 			}
